@@ -411,6 +411,17 @@ fn ll_step(lo: &mut LongLived, w1: &str, term: u8, frac: u16, w2: &str, st: &mut
                 case(),
             ));
         }
+        // a key the layout refuses (fixed layouts; in phonetic mode it is just ignored), in the middle of the word
+        if let Some(k) = keys().by_name("KP_EQUALS") {
+            let (ra, rb) = (lo.ctx.key(k.code, 0, 0).map_err(pf)?, fresh.key(k.code, 0, 0).map_err(pf)?);
+            if ra != rb {
+                return Err(Failure::new(
+                    "long-lived-context-differs-from-new",
+                    format!("after {w1:?} ended by {what} and the list switched off: {w2:?} typed, then the refused key KP_EQUALS: used context {}, new context {}", ra.short(), rb.short()),
+                    case(),
+                ));
+            }
+        }
         if lo.ctx.ongoing() {
             lo.ctx.commit(0).map_err(pf)?;
             fresh.commit(0).map_err(pf)?;
